@@ -11,7 +11,19 @@ NOTES = {
  "C16-b": "schedule dependent: the first version of the check caught it in some runs only; caught reliably after a back-to-back add/delete workload was added to C16",
  "C18-b": "initially MISSED (client programs always used a fresh Modify() handle); caught after handles held across other calls were added to the programs",
  "C13-a": "initially MISSED (conservation was not checked in cases where the scripted server violates the protocol); caught after conservation is demanded there too",
+ "C01-d": "second round; initially MISSED by C01 (single-session histories only) though caught by C04 and C06, whose statements it violates directly; caught by C01 after hand-over scripts were added (unanswered operations of a superseded primary must leave no trace)",
+ "C04-c": "second round; initially MISSED (all operations of a request carried the same stamp); caught after requests with individually stamped operations were added",
+ "C07-d": "second round; initially MISSED (RIBs were populated through package rib, bypassing the server's Modify path); caught after half of the cases program through the Modify RPC",
+ "C09-c": "second round; initially MISSED (no multi-field message with a present but all-zero election id in the alphabet); caught after two such symbols were added",
+ "C11-d": "second round; initially MISSED (the racy window between two adjacent statements was never hit); caught after yield points before writes to the session table were added to the verif hooks (also caught with the yield point at the racy write itself removed). patch.diff is the agent's change carried over the new hook line; the original is patch.at-6e387b2.diff. The agent's demonstration needs -race",
+ "C13-c": "second round; initially MISSED; caught after (a) a violation riding on the response that completes the last outstanding operation, with six fast waiters, (b) the oracle 'AwaitConverged never succeeds once part of a violating response was processed', (c) logging calls of the silent glog stand-in stall for 30 us as the real ones may",
+ "C13-d": "second round; initially MISSED (duplicate results always used FAILED, unknown ids never RIB_PROGRAMMED); caught after violations use every status the client does not deliberately tolerate in the negotiated mode",
+ "C14-c": "second round; initially MISSED (the stream always failed while requests were outstanding); caught after failures with nothing outstanding were added",
+ "C14-d": "second round; initially MISSED (the stub delivered the status of a failed Send to Recv at once, so the receiver had always gone by the time of Close); caught after a late status, a Close/Reset right after Done, and the oracle 'receiver not inside Recv when Close/Reset return'",
+ "C15-c": "second round; initially MISSED (one reconciliation per fresh target); caught after chains of reconciliations on the same live target (it is a reference-count leak, which C03 catches directly)",
+ "C19-c": "second round; initially MISSED (every test got fresh connections that were closed afterwards, which also removed the session the changed test leaks); caught after a configuration in which all tests share one connection that stays open",
 }
+REBASED = {"C04-b", "C04-d", "C05-c", "C09-d", "C10-d", "C11-d"}
 ids = sys.argv[1:] or sorted(d for d in os.listdir(SEEDED) if os.path.isdir(os.path.join(SEEDED, d)))
 rows = []
 for sid in ids:
@@ -22,6 +34,8 @@ for sid in ids:
     demo = re.search(r"demo_without_change=(\w+) demo_with_change=(\w+)", out)
     chk = re.search(r"check=(\w+) (CAUGHT|MISSED|ERROR)(?: :: (.*))?", out)
     suite = open(os.path.join(d, "suite.txt")).read().strip() if os.path.exists(os.path.join(d, "suite.txt")) else "not run"
+    if suite == "not run" and os.path.exists(os.path.join(d, "seedcheck.txt")) and "suite_with_change=PASS" in open(os.path.join(d, "seedcheck.txt")).read():
+        suite = "suite PASS (at import)"
     meta = {
         "id": sid, "property": prop,
         "summary": am.get("summary"), "needs": am.get("needs"), "files": am.get("files"),
@@ -36,9 +50,13 @@ for sid in ids:
     }
     if sid in NOTES:
         meta["history"] = NOTES[sid]
+    if sid in REBASED:
+        meta["patch_note"] = "patch.diff carries the agent's change over the later hook commit 901951d (an inert verifPoint line next to the changed statement); the change as delivered, against 6e387b2, is patch.at-6e387b2.diff"
     json.dump(meta, open(os.path.join(d, "meta.json"), "w"), indent=1)
-    rows.append((sid, meta["check_result"]["verdict"], " ".join(meta["check_result"]["signatures"][:3]), suite.split(" at ")[0]))
     print(sid, meta["check_result"]["verdict"], flush=True)
+for sid in sorted(d for d in os.listdir(SEEDED) if os.path.isfile(os.path.join(SEEDED, d, "meta.json"))):
+    meta = json.load(open(os.path.join(SEEDED, sid, "meta.json")))
+    rows.append((sid, meta["check_result"]["verdict"] + (" (after strengthening)" if "history" in meta and "MISSED" in meta["history"] else ""), " ".join(meta["check_result"]["signatures"][:3]), meta["confirmed_by_us"]["repository_suite_with_change"].split(" at ")[0]))
 with open(os.path.join(SEEDED, "RESULTS.md"), "w") as f:
     f.write("| seeded change | caught by its check (quick tier) | first signatures | repository suite with the change |\n|---|---|---|---|\n")
     for r in rows:
